@@ -19,6 +19,9 @@ RULE = ("fault enumeration on the real front ends: an exception injected into th
         "the same point must predict the number of intact rounds.  non-trivial = fault strikes after at least one completed phase")
 
 
+HANG_LIMIT_S = 120
+
+
 class Injected(ValueError):
     pass
 
@@ -79,7 +82,32 @@ def run_with_fault(cfg, fault, procs=1, mp=False):
         os.environ.pop("CUPCAKE_ENABLE_MULTIPROCESSING", None)
     c = dict(cfg, procs=procs)
     t0 = time.time()
-    r = e2e.traced_run(c, extra_patches=patches)
+    import signal
+
+    class Hang(BaseException):
+        pass
+
+    def on_alarm(signum, frame):
+        raise Hang()
+    old = signal.signal(signal.SIGALRM, on_alarm)
+    signal.alarm(HANG_LIMIT_S)
+    try:
+        r = e2e.traced_run(c, extra_patches=patches)
+    except Hang:
+        # the call did not return: clean up what we can and report it
+        for u in undo:
+            try:
+                u()
+            except Exception:
+                pass
+        from fast_ticc import _verif, main_loop as _ml
+        _verif.clear_listeners()
+        for ch in multiprocessing.active_children():
+            ch.terminate()
+        r = {"cfg": c, "result": None, "error": "HANG: the call did not return within %d s" % HANG_LIMIT_S, "events": [], "tasks": [], "series": []}
+    finally:
+        signal.alarm(0)
+        signal.signal(signal.SIGALRM, old)
     r["wall"] = time.time() - t0
     r["children_after"] = len(multiprocessing.active_children())
     os.environ.pop("CUPCAKE_ENABLE_MULTIPROCESSING", None)
@@ -139,6 +167,9 @@ def run(ctx):
                 ctx.count("fault:%s" % fault[0])
                 hist["faults"] += 1
                 hist["pool_modes"]["%d/%s" % (procs, mp)] = hist["pool_modes"].get("%d/%s" % (procs, mp), 0) + 1
+                if (r["error"] or "").startswith("HANG"):
+                    ctx.violation("monitor", "the call with fault %s hangs" % (fault,), {"case": case})
+                    continue
                 if r["result"] is not None:
                     ctx.violation("monitor", "a result was returned although %s failed" % (fault,), {"case": case})
                     continue
@@ -169,9 +200,11 @@ def run(ctx):
                         replay_lits.append(rl)
                         meta.append((case, rd))
                 # a clean call afterwards behaves as if the failed call had not happened
-                if fi % 4 == 0:
+                if fi % 4 == 0 or (fault[0] == "task" and fault[2] < K - 1 and fi % 2 == 0):
                     again = run_with_fault(BASE, None)
-                    if digest_result(again) != ref:
+                    if (again["error"] or "").startswith("HANG"):
+                        ctx.violation("monitor", "the clean call that follows the failed call hangs", {"case": case})
+                    elif digest_result(again) != ref:
                         ctx.violation("monitor", "a clean call after the failed call differs from a fresh run", {"case": case})
         # donor shortage: more clusters than the data can populate with this minimum size
         r = run_with_fault(dict(BASE, K=6, m=40, lengths=[60], limit=5, data_seed=3, rng_seed=3), None)
